@@ -37,15 +37,16 @@ pub fn ensure(ctx: &Ctx, slot: &SlotCfg) {
             members.iter().map(|m| format!("\"{m}\"")).collect::<Vec<_>>().join(", ")
         ),
     );
-    write_if_changed(
-        &s.join(".cargo/config.toml"),
-        &format!(
-            "[net]\noffline = true\n\n[build]\nrustflags = [\"--cfg\", \"ts_rs_verif\", \"-Awarnings\"]\n\n[env]\nTS_RS_VERIF_MACROS_INCLUDE = \"{verif}/engine/macros_include/mod.rs\"\n"
-        ),
-    );
     if !s.join("Cargo.lock").exists() {
         std::fs::copy(ctx.repo.join("Cargo.lock"), s.join("Cargo.lock")).ok();
     }
+    let case_rs = serde_case_rs(ctx);
+    write_if_changed(
+        &s.join(".cargo/config.toml"),
+        &format!(
+            "[net]\noffline = true\n\n[build]\nrustflags = [\"--cfg\", \"ts_rs_verif\", \"-Awarnings\"]\n\n[env]\nTS_RS_VERIF_MACROS_INCLUDE = \"{verif}/engine/macros_include/mod.rs\"\nVERIF_SERDE_CASE_RS = \"{case_rs}\"\n"
+        ),
+    );
     for (name, esm) in [("purefn", false), ("purefn_esm", true)] {
         let feats = if esm { "features = [\"import-esm\"]" } else { "features = []" };
         write_if_changed(
@@ -64,6 +65,39 @@ pub fn ensure(ctx: &Ctx, slot: &SlotCfg) {
         ),
     );
     ensure_slots(ctx, slot);
+}
+
+/// serde_derive's own case conversion table (the C09 oracle), from the cargo registry
+fn serde_case_rs(ctx: &Ctx) -> String {
+    let lock = std::fs::read_to_string(ctx.subjects().join("Cargo.lock")).unwrap_or_default();
+    let mut version = String::new();
+    let mut lines = lock.lines();
+    while let Some(l) = lines.next() {
+        if l.trim() == "name = \"serde_derive\"" {
+            if let Some(v) = lines.next() {
+                version = v.trim().trim_start_matches("version = ").trim_matches('"').to_string();
+            }
+        }
+    }
+    let home = std::env::var("CARGO_HOME").unwrap_or_else(|_| format!("{}/.cargo", std::env::var("HOME").unwrap_or_else(|_| "/root".into())));
+    if let Ok(rd) = std::fs::read_dir(format!("{home}/registry/src")) {
+        for e in rd.flatten() {
+            let p = e.path().join(format!("serde_derive-{version}/src/internals/case.rs"));
+            if p.exists() {
+                // inner doc comments (`//!`) cannot be include!d into a module: turn them into
+                // plain comments; nothing else is changed
+                let text = std::fs::read_to_string(&p).unwrap();
+                let text: String = text
+                    .lines()
+                    .map(|l| if l.starts_with("//!") { format!("//{}\n", &l[3..]) } else { format!("{l}\n") })
+                    .collect();
+                let copy = ctx.subjects().join("generated/serde_case.rs");
+                write_if_changed(&copy, &text);
+                return copy.to_string_lossy().into_owned();
+            }
+        }
+    }
+    inconclusive(&format!("serde_derive-{version}/src/internals/case.rs not found in the cargo registry"))
 }
 
 pub fn ensure_slots(ctx: &Ctx, slot: &SlotCfg) {
@@ -101,4 +135,45 @@ pub fn cargo_build(ctx: &Ctx, packages: &[&str], extra: &[&str]) -> (bool, Strin
 
 pub fn bin_path(ctx: &Ctx, name: &str) -> std::path::PathBuf {
     ctx.subjects().join("target/debug").join(name)
+}
+
+/// Build the in-process derive harness (a test binary) for a feature set; returns the executable.
+pub fn build_harness(ctx: &Ctx, serde_compat: bool, no_warnings: bool) -> std::path::PathBuf {
+    let mut cmd = Command::new("cargo");
+    cmd.current_dir(ctx.subjects())
+        .args(["test", "--offline", "-p", "harness", "--no-run", "--message-format=json", "--no-default-features"]);
+    let mut feats = vec![];
+    if serde_compat {
+        feats.push("serde-compat");
+    }
+    if no_warnings {
+        feats.push("no-serde-warnings");
+    }
+    if !feats.is_empty() {
+        cmd.arg("--features").arg(feats.join(","));
+    }
+    cmd.env("CARGO_NET_OFFLINE", "true").env_remove("RUSTFLAGS");
+    let (ok, out, err) = run(&mut cmd);
+    let mut exe = None;
+    let mut rendered = String::new();
+    for line in out.lines() {
+        if let Ok(v) = serde_json::from_str::<serde_json::Value>(line) {
+            if v["reason"] == "compiler-artifact" && v["target"]["name"] == "harness" && v["profile"]["test"] == true {
+                if let Some(e) = v["executable"].as_str() {
+                    exe = Some(std::path::PathBuf::from(e));
+                }
+            }
+            if v["reason"] == "compiler-message" && v["message"]["level"] == "error" {
+                rendered.push_str(v["message"]["rendered"].as_str().unwrap_or(""));
+            }
+        }
+    }
+    match exe {
+        Some(e) if ok => e,
+        _ => inconclusive(&format!(
+            "building the derive harness failed (does /repo/macros still compile with the cfg(ts_rs_verif) include?):\n{}\n{}",
+            rendered.chars().take(3000).collect::<String>(),
+            err.chars().rev().take(1500).collect::<String>().chars().rev().collect::<String>()
+        )),
+    }
 }
